@@ -98,6 +98,13 @@ CMPOPS = {ast.Eq: "==", ast.NotEq: "!=", ast.Lt: "<", ast.LtE: "<=", ast.Gt: ">"
 
 
 def mk_bin(op, l, r):
+    # identities
+    if is_const(r) and isinstance(r[1], int) and not isinstance(r[1], bool) and l[0] not in ("list", "cat", "pad", "rep"):
+        if (r[1] == 0 and op in ("+", "-", "|", "^", "<<", ">>")) or (r[1] == 1 and op in ("*", "//")):
+            return l
+    if is_const(l) and isinstance(l[1], int) and not isinstance(l[1], bool) and r[0] not in ("list", "cat", "pad", "rep"):
+        if (l[1] == 0 and op in ("+", "|", "^")) or (l[1] == 1 and op == "*"):
+            return r
     if is_const(l) and is_const(r):
         try:
             return C(fold_binop(BINOP_NODES[op](), l[1], r[1]))
